@@ -14,7 +14,7 @@ func allFiles() []genFile { return registry }
 
 func init() {
 	h := "trillian/ctfe/handlers.go"
-	register(genFile{name: "Handlers", imports: []string{"CTV.Basic.I64"}, units: []unit{
+	register(genFile{name: "Handlers", imports: []string{"CTV.Basic.I64", "CTV.Basic.ErrKind"}, units: []unit{
 		{"MaxGetEntriesAllowed", constKernel(h, "MaxGetEntriesAllowed", "maxGetEntriesAllowed", intLit)},
 		{"parseGetEntriesRange", funcKernel(h, "parseGetEntriesRange", "parseGetEntriesRange",
 			"(start_ end_ maxRange_ : Int) (align : Bool)", "Option (Int × Int)",
